@@ -278,6 +278,13 @@ def rule_v2(chk: Check) -> None:
         "a TAB inside the path (urlparse deletes it)": ({param: lit("gemini://example.org/a\tb")}, {f"{P}.path": lit("/ab")}),
         "a LF inside the query (urlparse deletes it)": ({param: lit("gemini://example.org/?x\ny")}, {f"{P}.query": lit("xy")}),
         "a lone CR inside the path (urlparse deletes it)": ({param: lit("gemini://example.org/a\rb")}, {f"{P}.path": lit("/ab")}),
+        # urlsplit also strips leading C0 control characters and blanks (library fact)
+        "a leading blank (urlparse strips it)": ({param: lit(" gemini://example.org/")}, {}),
+        "a leading control character (urlparse strips it)": ({param: lit("\x01gemini://example.org/")}, {}),
+        # an empty component is still that component: `@` delimits a user-info, `#` a fragment
+        "an empty user-info (`gemini://@host/`)": ({param: lit("gemini://@example.org/")}, {f"{P}.username": lit(""), f"{P}.netloc": lit("@example.org")}),
+        "an empty user-info with an empty password (`gemini://:@host/`)": ({param: lit("gemini://:@example.org/")}, {f"{P}.username": lit(""), f"{P}.password": lit(""), f"{P}.netloc": lit(":@example.org")}),
+        "an empty fragment (trailing `#`)": ({param: lit("gemini://example.org/#")}, {f"{P}.fragment": lit("")}),
     }
 
     def outcomes(init, oracle):
